@@ -223,7 +223,10 @@ def run_sequence(fmt: str, eps: int, seq: list, readers=("sync",)) -> dict:
             dataset_structure=(structure_b if with_bytes else structure3)(
                 fmt, eps))
         shared: dict = {"k": "init"}
-        nested: dict = {"k": {"v": "init"}, "l": ["init", 1]}
+        # (also updated three and four levels down: a copy that is deep for
+        # two levels only still aliases those)
+        nested: dict = {"k": {"v": "init", "deep": {"probe": {"gain": 0}}},
+                        "l": ["init", 1, [["init"]]]}
         calls = []  # (idx, split, validity, meta value snapshot, accepted)
         try:
             with dataset.filler() as filler:
@@ -242,6 +245,8 @@ def run_sequence(fmt: str, eps: int, seq: list, readers=("sync",)) -> dict:
                         # in place (a shallow copy keeps aliasing them)
                         nested["k"]["v"] = meta[1]
                         nested["l"][0] = meta[1]
+                        nested["k"]["deep"]["probe"]["gain"] = meta[1]
+                        nested["l"][2][0][0] = meta[1]
                         arg = nested
                     else:
                         shared["k"] = meta[1]
@@ -286,6 +291,8 @@ def run_sequence(fmt: str, eps: int, seq: list, readers=("sync",)) -> dict:
                 shared["k"] = "Z"
                 nested["k"]["v"] = "Z"
                 nested["l"].append("Z")
+                nested["k"]["deep"]["probe"]["gain"] = "Z"
+                nested["l"][2][0][0] = "Z"
         except Exception as e:  # pylint: disable=broad-except
             tb = traceback.extract_tb(e.__traceback__)
             bad.append(("C18", "exit-fails",
